@@ -22,6 +22,8 @@ type Spec struct {
 	// //go:generate line, each writing its own output file) inside ONE package
 	Parts []*Spec `json:"parts,omitempty"`
 	Label string  `json:"label,omitempty"`
+	// Regen: the generator is run a second time over its own output lengthened by half of itself
+	Regen bool `json:"regen,omitempty"`
 }
 
 // GenumOpts are genum's documented switches.
